@@ -225,3 +225,76 @@ func c14BRun(c C14BCase, st *kit.Stats) error {
 func TestC14B(t *testing.T) {
 	kit.Check(t, kit.Prop[C14BCase]{ID: "C14B", Gen: c14BGen, Run: c14BRun})
 }
+
+// ---- part C: a flush empties the database whatever its table went through before -------------------------
+
+type C14CCase struct {
+	DB    int    `json:"db"`
+	Keys  int    `json:"keys"`  // keys written before every flush (names from a wide space)
+	Churn []int  `json:"churn"` // per round: add/remove cycles of an unrelated key before the flush
+	All   []bool `json:"all"`   // per round: FLUSHALL instead of FLUSHDB
+	Salt  int    `json:"salt"`
+}
+
+func c14CGen(t *rapid.T) C14CCase {
+	c := C14CCase{DB: pick(t, "db", 0, 3, 15), Keys: rapid.IntRange(3, 40).Draw(t, "keys"), Salt: rapid.IntRange(0, 999).Draw(t, "salt")}
+	for n := rapid.IntRange(1, 30).Draw(t, "rounds"); n > 0; n-- {
+		c.Churn = append(c.Churn, churnCount(t))
+		c.All = append(c.All, rapid.Bool().Draw(t, "all"))
+	}
+	return c
+}
+
+func c14CRun(c C14CCase, st *kit.Stats) error {
+	emu := kit.StartEmu("")
+	defer emu.Stop()
+	w, o, other := emu.Dial(), emu.Dial(), emu.Dial()
+	db := strconv.Itoa(c.DB)
+	w.Do("SELECT", db)
+	o.Do("SELECT", db)
+	otherDB := strconv.Itoa((c.DB + 1) % 16)
+	other.Do("SELECT", otherDB)
+	for r := range c.Churn {
+		other.Do("SET", "bystander", "1")
+		mset := []string{"MSET"}
+		for i := 0; i < c.Keys; i++ {
+			mset = append(mset, fmt.Sprintf("w%d.%d", (i*37+r)%200, c.Salt), "v")
+		}
+		w.Do(mset...)
+		for i := 0; i < c.Churn[r]; i++ {
+			w.Do("SET", "churn", "1")
+			w.Do("DEL", "churn")
+		}
+		fl := "FLUSHDB"
+		if c.All[r] {
+			fl = "FLUSHALL"
+		}
+		flusher := w
+		if r%2 == 1 {
+			flusher = o
+		}
+		if v, err := flusher.Do(fl); err != nil || v.IsErr() {
+			return fmt.Errorf("%s: %v %v", fl, v, err)
+		}
+		for _, cn := range []*kit.Conn{w, o} {
+			v, _ := cn.Do("DBSIZE")
+			ks, _ := cn.Do("KEYS", "*")
+			if !kit.Equal(v, kit.Int(0)) || len(ks.A) != 0 {
+				return fmt.Errorf("round %d: after %s of database %s (%d keys, %d add/remove cycles before it) DBSIZE is %s and KEYS * lists %d keys", r, fl, db, c.Keys, c.Churn[r], v, len(ks.A))
+			}
+		}
+		v, _ := other.Do("EXISTS", "bystander")
+		if c.All[r] != kit.Equal(v, kit.Int(0)) {
+			return fmt.Errorf("round %d: after %s on database %s, a key of database %s exists: %s", r, fl, db, otherDB, v)
+		}
+	}
+	st.Class(fmt.Sprintf("rounds:%d", len(c.Churn)/10*10))
+	if len(c.Churn) > 1 {
+		st.NonTrivial(fmt.Sprintf("%+v", c), c)
+	}
+	return nil
+}
+
+func TestC14C(t *testing.T) {
+	kit.Check(t, kit.Prop[C14CCase]{ID: "C14C", Gen: c14CGen, Run: c14CRun})
+}
